@@ -26,6 +26,9 @@ fv := {|x| "var#{x.n}".p; U(x.n + 10)}
 fpair := {|a, b| "pair".p; a + b}
 wrapped := 1.try./(0).err
 fident := {|x| x}
+negf := Int['-%]
+lenf := Arr['len]
+callable := {call: m{|x| x + 100}}
 `
 
 type c13step struct {
@@ -165,6 +168,12 @@ func runC13(w *fw.W) {
 		{fam: "special", recv: "6.try./(0)", steps: nil},
 		{fam: "special", recv: "6.try./(3)", steps: nil},
 		{fam: "special", recv: "{x: 6.try./(0)}", steps: []c13step{{name: "prop-holding-either", src: ".x"}}},
+		// a step spelled as a variable call whose variable holds a built-in function / a callable object / a non-callable
+		{fam: "special", recv: "3", steps: []c13step{{name: "var-builtin-func", src: ".^negf"}}},
+		{fam: "special", recv: "3", steps: []c13step{{name: "var-callable-object", src: ".^callable"}}},
+		{fam: "special", recv: "3", steps: []c13step{{name: "var-callable-object", src: ".^callable"}, {name: "operator+", src: ".+(1)"}}},
+		{fam: "special", recv: "3", steps: []c13step{{name: "var-not-callable", src: ".^wrapped", fail: &c13fail{"TypeErr", ""}}}},
+		{fam: "special", recv: "[3, 4]", steps: []c13step{{name: "var-builtin-func-on-arr", src: ".^lenf"}}},
 	}
 	chains = append(chains, special...)
 	// replacing step j by a failing step makes chains that differ only in the replaced step identical: keep one
